@@ -40,8 +40,10 @@ pub fn build(mut t: Tape) -> Built {
             Built { call, world: w, expected, family, normalise: if vars { None } else { Some(gm::gs1_normalise) }, detail }
         }
         2 => {
-            let mut st = Gs2State::generate(&mut t, 64);
-            st.fit();
+            // one case in four: long tables, the reply datagram is far above 1024 bytes and the MTU
+            let big = t.draw(CFG, 4) == 0;
+            let mut st = Gs2State::generate(&mut t, if big { 200 } else { 64 });
+            st.fit_to(if big { 16_000 } else { 1400 });
             let expected = st.expected();
             let detail = json!({"version": 2, "players": st.players.len(), "teams": st.teams.len(), "extras": st.extras.len(), "reply_len": st.encode([0, 0, 0, 1]).len()});
             let mut w = World::new(t);
